@@ -1522,7 +1522,8 @@ fn transform(t: &T, what: &str, rng: &mut Rng, c: f64) -> T {
             T::Term(p) => T::Term(*p),
             T::Chance(i, o) => {
                 // same constant for every node of a named infoset is not required: any positive constant per node
-                let k = if i.is_some() { c } else { *rng.pick(&[0.5, 2.0, 4.0, c]) };
+                // (weights as small or as large as positive doubles go are weights like any other)
+                let k = if i.is_some() { c } else { *rng.pick(&[0.5, 2.0, 4.0, c, 2f64.powi(-1040), 2f64.powi(900)]) };
                 T::Chance(*i, o.iter().map(|(w, x)| (w * k, transform(x, what, rng, c))).collect())
             }
             T::Player(p, i, a) => T::Player(*p, *i, a.iter().map(|(x, y)| (*x, transform(y, what, rng, c))).collect()),
